@@ -1074,7 +1074,8 @@ def check_C17(rep, fl):
     import props_panic
     props_panic.check_builder_plumbing(rep, fl, only_sites=("metrics flag", "set_metrics", "set_* keeps metrics"))
     # "from any number of threads": every handle counts into the same Metrics and drives the same policy
-    check_handle_sharing(rep, fl, fields=("metrics", "policy", "store", "insert_buf_tx"))
+    # (and all see the same closed flag: "lookups made on the open cache" - a handle that does not learn of close() keeps counting)
+    check_handle_sharing(rep, fl, fields=("metrics", "policy", "store", "insert_buf_tx", "is_closed"))
 
 
 # ----------------------------------------------------------------------------------------
